@@ -24,7 +24,14 @@
     a KM that already holds a digest, was parsed from a signed file, was signed
     in between ...): theorems over all prior states and all histories.
     Which of the glue conditions fail in the real code is recorded by the
-    [_refuted] theorems and the KNOWN_FINDINGS entries of C18. *)
+    [_refuted] theorems and the KNOWN_FINDINGS entries of C18.
+
+    Repaired in /repo and restated here as full theorems: the BG 1.0 SignBPM cut
+    (ee4d7c9: C18_cut_agree, C18_sign_verify_bg10), the fail-open of
+    BPMKeyMatchKMHash (24a2a40: C18_keymatch_alone_bg/_cbnt,
+    C18_keymatch_is_binding_bg/_cbnt, C18_keymatch_closed_bg/_cbnt), the panic of
+    DecryptPrivKey on short input (4423a4c: C18_decrypt_short_input_is_error,
+    C18_decrypt_never_panics). *)
 From CSS Require Import Lib.Base Model.Manifest Proofs.Manifest.
 
 (** * 0. Which generation a file is read as (bgheader.DetectBGV) *)
@@ -38,13 +45,22 @@ Print Assumptions C18_detect.
 
 (** * 1. A manifest signed by the suite verifies with the suite *)
 
+(** SignX and VerifyX cut a structure at the same offset, for both generations and
+    both documents (BG 1.0 BPM: PMSEOffset() at both sites since ee4d7c9). *)
+Theorem C18_cut_agree :
+  forall (E : env) g d (m : M E), sign_cut E g d m = verify_cut E g d m.
+Proof. exact cut_agree. Qed.
+Print Assumptions C18_cut_agree.
+
 (** PARTIAL: besides the assumptions on the third-party parts (sound scheme, the
-    signed file parses back to the structure that was serialised), three
-    conditions on the glue are needed, and each of them fails somewhere in the
-    real code (theorems 1a-1c):
-    (cut)    VerifyX cuts where SignX cut;
+    signed file parses back to the structure that was serialised, storing key and
+    signature does not move the signature offset), two conditions on the glue are
+    needed, and each of them fails somewhere in the real code for CBnT manifests
+    (theorems 1b, 1c):
     (stable) storing key and signature leaves the signed prefix untouched;
-    (label)  the hash label stored with the signature is the digest the scheme signed. *)
+    (label)  the hash label stored with the signature is the digest the scheme signed.
+    (The third condition of earlier versions, "VerifyX cuts where SignX cut", is
+    now the theorem C18_cut_agree.) *)
 Theorem C18_sign_verify_partial :
   forall (E : env) g d (m : M E) sch req (sk : SK E) sd,
   scheme_sound E -> store_laws E ->
@@ -53,7 +69,7 @@ Theorem C18_sign_verify_partial :
   sign_raw E sk sch (signed_message E g d m0) = Some sd ->
   detect (ser E m') = Some g ->
   parse E g d (ser E m') = Some m' ->
-  (* cut *)    verify_cut E g d m' = sign_cut E g d m0 ->
+  (* offset *) sign_cut E g d m' = sign_cut E g d m0 ->
   (* stable *) firstn (sign_cut E g d m0) (ser E m') = firstn (sign_cut E g d m0) (ser E m0) ->
   (* label *)  (g = V10 \/ stored_hash g sch (req_hash E d m0 req) = scheme_hash sch) ->
   sign_manifest E g d m sch req sk = Ok (ser E m') /\
@@ -69,25 +85,48 @@ Example C18_sign_verify_example :
   scheme_sound Toy /\ store_laws Toy /\
   sign_raw Toy 5 AlgRSAPSS (signed_message Toy V20 BPM (prep Toy V20 BPM m)) = Some sd /\
   detect (ser Toy m') = Some V20 /\ parse Toy V20 BPM (ser Toy m') = Some m' /\
-  verify_cut Toy V20 BPM m' = sign_cut Toy V20 BPM (prep Toy V20 BPM m) /\
+  sign_cut Toy V20 BPM m' = sign_cut Toy V20 BPM (prep Toy V20 BPM m) /\
   firstn (sign_cut Toy V20 BPM (prep Toy V20 BPM m)) (ser Toy m') =
     firstn (sign_cut Toy V20 BPM (prep Toy V20 BPM m)) (ser Toy (prep Toy V20 BPM m)) /\
   stored_hash V20 AlgRSAPSS (req_hash Toy BPM (prep Toy V20 BPM m) AlgSHA384) = scheme_hash AlgRSAPSS /\
   verify_file Toy BPM (ser Toy m') = Ok tt.
 Proof. exact sign_verify_example. Qed.
 
-(** 1a. (cut) fails for BG 1.0 BPMs in the code as it is: SignBPM cuts at
-    PMSE.KeySignatureOffset() — an offset inside the signature element, 9 — and
-    VerifyBPM at PMSEOffset().  With everything else in order the suite's own
-    signature is rejected.  [finding C18-bg10-signbpm-cut] *)
-Theorem C18_sign_verify_bg10_bpm_refuted :
-  exists (E : env) (m : M E) (sk : SK E) (file : bytes),
-    env_reasonable E /\
-    sign_cut E V10 BPM (prep E V10 BPM m) <> verify_cut E V10 BPM (prep E V10 BPM m) /\
-    sign_manifest E V10 BPM m AlgRSASSA AlgSHA256 sk = Ok file /\
-    verify_file E BPM file = Err 3.
-Proof. exact sign_verify_bg10_bpm_witness. Qed.
-Print Assumptions C18_sign_verify_bg10_bpm_refuted.
+(** 1a. Boot Guard 1.0, KM and BPM alike: NO condition on the glue is left (BG 1.0
+    verification ignores the stored label, and the cuts agree): a manifest signed
+    by the suite verifies with the suite, under the third-party assumptions alone.
+    (Refuted for BPMs before the repair ee4d7c9 of finding C18-bg10-signbpm-cut.) *)
+Theorem C18_sign_verify_bg10 :
+  forall (E : env) d (m : M E) sch req (sk : SK E) sd,
+  scheme_sound E -> store_laws E ->
+  let m0 := prep E V10 d m in
+  let m' := signed_struct E V10 d m sch req sk sd in
+  sign_raw E sk sch (signed_message E V10 d m0) = Some sd ->
+  detect (ser E m') = Some V10 ->
+  parse E V10 d (ser E m') = Some m' ->
+  (* offset *) sign_cut E V10 d m' = sign_cut E V10 d m0 ->
+  (* stable *) firstn (sign_cut E V10 d m0) (ser E m') = firstn (sign_cut E V10 d m0) (ser E m0) ->
+  sign_manifest E V10 d m sch req sk = Ok (ser E m') /\
+  verify_file E d (ser E m') = Ok tt.
+Proof. exact sign_verify_bg10. Qed.
+Print Assumptions C18_sign_verify_bg10.
+
+(** the hypotheses are satisfiable, in an environment where the offset the old code
+    cut at (PMSE.KeySignatureOffset()) differs from PMSEOffset() *)
+Example C18_sign_verify_bg10_bpm_example :
+  let m := toy_unsigned 16 11 in
+  let sd := 5 :: AlgRSASSA :: [0;0;0;0;0;0;0;0;16;13;11;1;2] in
+  let m' := signed_struct Toy V10 BPM m AlgRSASSA AlgSHA256 5 sd in
+  env_reasonable Toy /\
+  pmse_ks_off Toy (prep Toy V10 BPM m) <> pmse_off Toy (prep Toy V10 BPM m) /\
+  sign_raw Toy 5 AlgRSASSA (signed_message Toy V10 BPM (prep Toy V10 BPM m)) = Some sd /\
+  detect (ser Toy m') = Some V10 /\ parse Toy V10 BPM (ser Toy m') = Some m' /\
+  sign_cut Toy V10 BPM m' = sign_cut Toy V10 BPM (prep Toy V10 BPM m) /\
+  firstn (sign_cut Toy V10 BPM (prep Toy V10 BPM m)) (ser Toy m') =
+    firstn (sign_cut Toy V10 BPM (prep Toy V10 BPM m)) (ser Toy (prep Toy V10 BPM m)) /\
+  sign_manifest Toy V10 BPM m AlgRSASSA AlgSHA256 5 = Ok (ser Toy m') /\
+  verify_file Toy BPM (ser Toy m') = Ok tt.
+Proof. exact sign_verify_bg10_bpm_example. Qed.
 
 (** 1b. (label) fails for CBnT when the requested hash is not the one the scheme
     hard-wires (RSASSA+SHA384, RSAPSS+SHA256, anything+SHA1/SM3).
@@ -188,9 +227,38 @@ Print Assumptions C18_unknown_version_accepted.
 
 (** * 3. The KM binds the BPM key *)
 
+(** BG 1.0, BPMKeyMatchKMHash taken ALONE (the BPM test of bg-suite): it reports a
+    match exactly when the KM stores the SHA-256 of the BPM signer's modulus
+    (Key.Data without the 4 exponent bytes).  (Refuted before the repair 24a2a40 of
+    finding C18-binding-failopen: a SHA1-sized digest matched every key.) *)
+Theorem C18_keymatch_alone_bg :
+  forall H : Z -> bytes -> bytes,
+  (forall x, length (H AlgSHA256 x) = 32%nat) ->
+  forall alg buf kd, (4 <= length kd)%nat ->
+  (bg_key_match H alg buf AlgRSA kd = Ok true <->
+   alg = AlgSHA256 /\ buf = H AlgSHA256 (skipn 4 kd)).
+Proof. exact keymatch_alone_bg. Qed.
+Print Assumptions C18_keymatch_alone_bg.
+
+(** ... for ALL inputs (any key algorithm, any key data, any H): a match is never
+    reported without a comparison that succeeded, and it implies KMHasBPMHash -- the
+    conjunction bg-suite runs is decided by BPMKeyMatchKMHash. *)
+Theorem C18_keymatch_compared_bg :
+  forall (H : Z -> bytes -> bytes) alg buf keyalg kd,
+  bg_key_match H alg buf keyalg kd = Ok true ->
+  bg_has_hash buf = true /\ check_key_hash H bg_hash_size alg buf keyalg kd = Ok tt.
+Proof. exact bg_key_match_compared. Qed.
+Print Assumptions C18_keymatch_compared_bg.
+
+Theorem C18_keymatch_is_binding_bg :
+  forall (H : Z -> bytes -> bytes) alg buf keyalg kd,
+  is_ok_true (bg_key_match H alg buf keyalg kd) = bg_binding_ok H alg buf keyalg kd.
+Proof. exact bg_key_match_is_binding. Qed.
+Print Assumptions C18_keymatch_is_binding_bg.
+
 (** BG 1.0, the binding check = KMHasBPMHash and BPMKeyMatchKMHash (as bg-suite
     runs them): it succeeds exactly when the KM stores the SHA-256 of the BPM
-    signer's modulus (Key.Data without the 4 exponent bytes). *)
+    signer's modulus. *)
 Theorem C18_binding_exact_bg :
   forall H : Z -> bytes -> bytes,
   (forall x, length (H AlgSHA256 x) = 32%nat) ->
@@ -211,28 +279,58 @@ Theorem C18_binding_same_key_bg :
 Proof. exact binding_same_key_bg. Qed.
 Print Assumptions C18_binding_same_key_bg.
 
-(** CBnT: exactly when some entry has usage = BPM-signing and EVERY entry whose
-    usage has bit 0 set stores H(its algorithm, modulus). *)
+(** CBnT, BPMKeyMatchKMHash ALONE: exactly when some entry has the BPM-signing bit
+    (bit 0) in its usage and EVERY such entry stores H(its algorithm, modulus).
+    (Refuted before 24a2a40: a KM without such an entry, or with usage 5, matched
+    every key.) *)
+Theorem C18_keymatch_alone_cbnt :
+  forall H : Z -> bytes -> bytes,
+  (forall alg n x, cbnt_hash_size alg = Some n -> length (H alg x) = n) ->
+  forall hs kd, (4 <= length kd)%nat ->
+  (cbnt_key_match H hs AlgRSA kd = Ok true <->
+   (exists h, In h hs /\ Z.odd (kh_usage h) = true) /\
+   (forall h, In h hs -> Z.odd (kh_usage h) = true -> entry_ok H kd h)).
+Proof. exact keymatch_alone_cbnt. Qed.
+Print Assumptions C18_keymatch_alone_cbnt.
+
+(** ... for ALL inputs: a match means an entry was found and fiano's ValidateBPMKey
+    accepted the key; it implies KMHasBPMHash. *)
+Theorem C18_keymatch_compared_cbnt :
+  forall (H : Z -> bytes -> bytes) hs keyalg kd,
+  cbnt_key_match H hs keyalg kd = Ok true <->
+  cbnt_has_hash hs = true /\ cbnt_validate H hs keyalg kd = Ok tt.
+Proof. exact cbnt_key_match_spec. Qed.
+Print Assumptions C18_keymatch_compared_cbnt.
+
+Theorem C18_keymatch_is_binding_cbnt :
+  forall (H : Z -> bytes -> bytes) hs keyalg kd,
+  is_ok_true (cbnt_key_match H hs keyalg kd) = cbnt_binding_ok H hs keyalg kd.
+Proof. exact cbnt_key_match_is_binding. Qed.
+Print Assumptions C18_keymatch_is_binding_cbnt.
+
+(** CBnT, the conjunction: the same condition. *)
 Theorem C18_binding_exact_cbnt :
   forall H : Z -> bytes -> bytes,
   (forall alg n x, cbnt_hash_size alg = Some n -> length (H alg x) = n) ->
   forall hs kd, (4 <= length kd)%nat ->
   (cbnt_binding_ok H hs AlgRSA kd = true <->
-   (exists h, In h hs /\ kh_usage h = UsageBPMSigningPKD) /\
+   (exists h, In h hs /\ Z.odd (kh_usage h) = true) /\
    (forall h, In h hs -> Z.odd (kh_usage h) = true -> entry_ok H kd h)).
 Proof. exact binding_exact_cbnt. Qed.
 Print Assumptions C18_binding_exact_cbnt.
 
 (** ... for the KM GetBPMPubHash makes (one BPM entry among entries of other
-    usages): exactly when it is the same key. *)
+    usages) -- and for the same entry under a shared usage (bit 0 and other bits,
+    e.g. 5) --: exactly when it is the same key. *)
 Theorem C18_binding_same_key_cbnt :
   forall H : Z -> bytes -> bytes,
   (forall alg n x, cbnt_hash_size alg = Some n -> length (H alg x) = n) ->
-  forall alg kd0 kd pre post, (4 <= length kd)%nat ->
+  forall usage alg kd0 kd pre post, (4 <= length kd)%nat ->
+  Z.odd usage = true ->
   cbnt_hash_size alg <> None ->
   Forall (fun h => Z.odd (kh_usage h) = false) (pre ++ post) ->
   (H alg (skipn 4 kd0) = H alg (skipn 4 kd) -> skipn 4 kd0 = skipn 4 kd) ->
-  (cbnt_binding_ok H (pre ++ mk_kmhash UsageBPMSigningPKD alg (H alg (skipn 4 kd0)) :: post) AlgRSA kd = true
+  (cbnt_binding_ok H (pre ++ mk_kmhash usage alg (H alg (skipn 4 kd0)) :: post) AlgRSA kd = true
    <-> skipn 4 kd0 = skipn 4 kd).
 Proof. exact binding_same_key_cbnt. Qed.
 Print Assumptions C18_binding_same_key_cbnt.
@@ -249,8 +347,8 @@ Print Assumptions C18_binding_same_key_cbnt.
     hash (SignKM, WriteKM + NewKM, VerifyKM, a change of SVN/ID). *)
 
 (** One call on an object in ANY prior state: the binding check then succeeds
-    exactly for the key of that call (BG 1.0: with SHA256, see the refutation
-    below for SHA1). *)
+    exactly for the key of that call (BG 1.0: with SHA256; SHA1 is refused, see
+    C18_rekey_bg_sha1_fails_closed below). *)
 Theorem C18_rekey_binding :
   forall H : Z -> bytes -> bytes,
   (forall alg n x, cbnt_hash_size alg = Some n -> length (H alg x) = n) ->
@@ -304,16 +402,29 @@ Example C18_rekey_history_example :
   km_binding_ok toyH (km_run toyH st0 steps) AlgRSA old = false.
 Proof. exact history_example. Qed.
 
-(** REFUTED for BG 1.0 with SHA1, which GetBPMPubHash accepts: the binding check
-    fails for the very key that was placed.  [finding C18-binding-failopen] *)
-Theorem C18_rekey_binding_bg_sha1_refuted :
-  exists (H : Z -> bytes -> bytes) (st st' : kmstate) (kd : bytes),
-    (forall alg n x, cbnt_hash_size alg = Some n -> length (H alg x) = n) /\
-    (4 <= length kd)%nat /\
-    km_place H st true (Some AlgSHA1) kd = (Ok tt, st') /\
-    km_binding_ok H st' AlgRSA kd = false.
-Proof. exact rekey_bg_sha1_witness. Qed.
-Print Assumptions C18_rekey_binding_bg_sha1_refuted.
+(** BG 1.0 with SHA1, which GetBPMPubHash accepts: a CHARACTERISATION, not a
+    defect.  The suite takes only digests "more secure than SHA-1" (more than 30
+    bytes) as a BPM key hash; after a successful GetBPMPubHash(SHA1) on a BG 1.0 KM
+    in any state, KMHasBPMHash and BPMKeyMatchKMHash both report an error for EVERY
+    BPM key, the placed one included: the binding check fails closed.  (Before
+    24a2a40 BPMKeyMatchKMHash reported a match for every key here.) *)
+Theorem C18_rekey_bg_sha1_fails_closed :
+  forall H : Z -> bytes -> bytes,
+  (forall x, length (H AlgSHA1 x) = 20%nat) ->
+  forall a b kd0 st',
+  km_place H (KmBG a b) true (Some AlgSHA1) kd0 = (Ok tt, st') ->
+  exists buf, st' = KmBG AlgSHA1 buf /\ length buf = 20%nat /\
+    bg_km_has_bpm_hash buf = Err 1 /\
+    (forall keyalg kd, bg_key_match H AlgSHA1 buf keyalg kd = Err 2) /\
+    (forall keyalg kd, km_binding_ok H st' keyalg kd = false).
+Proof. exact rekey_bg_sha1_fails_closed. Qed.
+Print Assumptions C18_rekey_bg_sha1_fails_closed.
+
+Example C18_rekey_bg_sha1_example :
+  (forall x, length (toyH AlgSHA1 x) = 20%nat) /\
+  km_place toyH (KmBG AlgSHA256 (toyH AlgSHA256 [7;8;9])) true (Some AlgSHA1) [1;0;1;0;7;8;10]
+    = (Ok tt, KmBG AlgSHA1 (toyH AlgSHA1 [7;8;10])).
+Proof. exact rekey_bg_sha1_example. Qed.
 
 Example C18_binding_example :
   let H := fun (alg : Z) (m : bytes) => repeat (fold_left Z.add m alg) 32 in
@@ -322,23 +433,28 @@ Example C18_binding_example :
   bg_binding_ok H AlgSHA256 (H AlgSHA256 [7;8;9]) AlgRSA [1;0;1;0;7;8;10] = false.
 Proof. exact binding_example. Qed.
 
-(** REFUTED for BPMKeyMatchKMHash taken alone: with a SHA1-sized digest in a BG 1.0
-    KM, or a shared usage (bit 0 and another bit) in a CBnT KM, it reports a match
-    for EVERY key, and the same key is not recognised by KMHasBPMHash.
-    [finding C18-binding-failopen] *)
-Theorem C18_keymatch_alone_bg_refuted :
-  exists buf : bytes, length buf = 20%nat /\
-    forall H alg keyalg kd, bg_key_match H alg buf keyalg kd = Ok true /\ bg_km_has_bpm_hash buf = Err 1.
-Proof. exact keymatch_failopen_bg. Qed.
-Print Assumptions C18_keymatch_alone_bg_refuted.
+(** The inputs on which the code before 24a2a40 reported a match for every key:
+    a digest of at most 30 bytes in a BG 1.0 KM (SHA1), a CBnT KM without an entry
+    carrying the BPM-signing bit -- now an error from both functions, for every
+    key --, and a CBnT entry with a shared usage (5) -- now compared like any other. *)
+Theorem C18_keymatch_closed_bg :
+  forall buf : bytes, (2 + length buf <= minHashTypeSize)%nat ->
+    forall H alg keyalg kd, bg_key_match H alg buf keyalg kd = Err 2 /\ bg_km_has_bpm_hash buf = Err 1.
+Proof. exact keymatch_closed_bg. Qed.
+Print Assumptions C18_keymatch_closed_bg.
 
-Theorem C18_keymatch_alone_cbnt_refuted :
-  exists usage : Z, Z.odd usage = true /\
-    forall H alg buf keyalg kd,
-      cbnt_key_match H [mk_kmhash usage alg buf] keyalg kd = Ok true /\
-      cbnt_km_has_bpm_hash [mk_kmhash usage alg buf] = Err 1.
-Proof. exact keymatch_failopen_cbnt. Qed.
-Print Assumptions C18_keymatch_alone_cbnt_refuted.
+Theorem C18_keymatch_closed_cbnt :
+  forall hs, Forall (fun h => Z.odd (kh_usage h) = false) hs ->
+    forall H keyalg kd, cbnt_key_match H hs keyalg kd = Err 2 /\ cbnt_km_has_bpm_hash hs = Err 1.
+Proof. exact keymatch_no_entry_cbnt. Qed.
+Print Assumptions C18_keymatch_closed_cbnt.
+
+Example C18_keymatch_shared_usage_example :
+  let kd := [1;0;1;0;7;8;9] in let kd' := [1;0;1;0;7;8;10] in
+  let hs := [mk_kmhash 5 AlgSHA256 (toyH AlgSHA256 [7;8;9])] in
+  cbnt_key_match toyH hs AlgRSA kd = Ok true /\ cbnt_km_has_bpm_hash hs = Ok true /\
+  cbnt_key_match toyH hs AlgRSA kd' = Err 1.
+Proof. exact keymatch_shared_usage_example. Qed.
 
 (** * 4. Wrapped private keys *)
 
@@ -371,11 +487,18 @@ Theorem C18_password_right :
 Proof. exact password_right. Qed.
 Print Assumptions C18_password_right.
 
-(** DecryptPrivKey on fewer than 12 bytes with a password panics (slice bounds). *)
-Theorem C18_decrypt_short_input_panics :
-  forall (K : kenv) data pw, pw <> [] -> (length data < nonce_size)%nat -> decrypt_priv K data pw = Panic.
-Proof. exact decrypt_short_panics. Qed.
-Print Assumptions C18_decrypt_short_input_panics.
+(** DecryptPrivKey on fewer than 12 bytes with a password is an error (it panicked,
+    slice bounds, before the repair 4423a4c), and no input makes it panic. *)
+Theorem C18_decrypt_short_input_is_error :
+  forall (K : kenv) data pw, pw <> [] -> (length data < nonce_size)%nat -> decrypt_priv K data pw = Err 3.
+Proof. exact decrypt_short_is_error. Qed.
+Print Assumptions C18_decrypt_short_input_is_error.
+
+Theorem C18_decrypt_never_panics :
+  forall (K : kenv) data pw,
+  (exists k, decrypt_priv K data pw = Ok k) \/ (exists c, decrypt_priv K data pw = Err c).
+Proof. exact decrypt_total. Qed.
+Print Assumptions C18_decrypt_never_panics.
 
 Example C18_password_example :
   aead_correct ToyK /\ aead_wrong_key ToyK /\ ct_not_pem ToyK /\
